@@ -163,6 +163,38 @@ def run(ck):
             ck.fail(["C08", "burst", core.sig_hash(b)], "a burst of notifications and requests leaves requests unanswered: %s" % d.get("unanswered"),
                     {"cmd": b[:3000]}, {"timeout": d.get("timeout"), "unanswered": d.get("unanswered")}, "every request answered")
     ck.count("bursts", len(bursts), {core.sig_hash(b) for b in bursts}, sample={"burst": bursts[0][:300]})
+    # unusual but legal message sequences: every request is answered (with a result or an error) and the server keeps
+    # answering afterwards - a request for a document that was never opened, an inverted range, documents that are not files,
+    # an empty change list, didSave / didClose, completion with a trigger character, all request kinds on an unknown document
+    td = {"uri": "$DIR/a.td"}
+    odd = {
+        "request-for-unopened-document": [["open", "a.td", "class A;\n"], ["idle"], ["req", 1, "hover", "b.td", 0, 0], ["req", 2, "documentSymbol", "a.td"]],
+        "inlay-hint-range-ends-before-it-starts": [["open", "a.td", "class A<int x>;\ndef d : A<1>;\n"], ["idle"], ["req", 1, "inlayHint", "a.td", 1, 5, 0, 0], ["req", 2, "hover", "a.td", 0, 7]],
+        "document-that-is-not-a-file": [["openuri", "untitled:Untitled-1", "class U;\n"], ["changeuri", "untitled:Untitled-1", "class V;\n"], ["open", "a.td", "class A;\n"], ["idle"],
+                                        ["req", 1, "documentSymbol", "a.td"]],
+        "document-without-a-directory": [["openuri", "file:///", "class R;\n"], ["open", "a.td", "class A;\n"], ["idle"], ["req", 1, "documentSymbol", "a.td"]],
+        "empty-change-list": [["open", "a.td", "class A;\n"], ["change", "a.td", []], ["idle"], ["req", 1, "documentSymbol", "a.td"]],
+        "save-close-and-triggered-completion": [["open", "a.td", "class A;\ndefvar x = !\n"], ["idle"],
+                                                 ["reqraw", 1, "textDocument/completion", {"textDocument": td, "position": {"line": 1, "character": 12},
+                                                                                            "context": {"triggerKind": 2, "triggerCharacter": "!"}}],
+                                                 ["notify", "textDocument/didSave", {"textDocument": td}], ["close", "a.td"], ["req", 2, "documentSymbol", "a.td"],
+                                                 ["open", "a.td", "class B;\n"], ["req", 3, "documentSymbol", "a.td"]],
+        "every-request-kind-on-an-unknown-document": [["open", "a.td", "class A;\n"], ["idle"]] + [req(10 + j, k)[:3] + ["nowhere.td"] + req(10 + j, k)[4:] for j, k in enumerate(sorted(READS))]
+                                                      + [["req", 99, "documentSymbol", "a.td"]],
+        "position-far-outside-the-text": [["open", "a.td", "class A;\n"], ["idle"], ["req", 1, "hover", "a.td", 4000000000, 4000000000], ["req", 2, "completion", "a.td", 7, 0],
+                                          ["req", 3, "inlayHint", "a.td", 0, 0, 4000000000, 0], ["req", 4, "documentSymbol", "a.td"]],
+    }
+    olines = ["srv " + json.dumps({"dir": "%s/tmp/odd%d" % (core.BUILD, i), "disk": {}, "script": sc, "timeout_ms": 6000}) for i, sc in enumerate(odd.values())]
+    orr = core.impl(olines, timeout=120, jobs=4, tag="o08")
+    for (name, sc), line, r in zip(odd.items(), olines, orr):
+        try:
+            d = json.loads(r)
+        except Exception:
+            d = {"timeout": True, "unanswered": [r[:60]]}
+        if d.get("timeout") or d.get("unanswered"):
+            ck.fail(["C08", "odd-message", name], "after %s the server leaves requests unanswered: %s" % (name.replace("-", " "), d.get("unanswered")),
+                    {"cmd": line[:3000]}, {"timeout": d.get("timeout"), "unanswered": d.get("unanswered")}, "every request answered (result or error)")
+    ck.count("odd_messages", len(odd), set(odd), sample={"script": list(odd.values())[0]})
     # the repository's own binary (includes main.rs' service stack), worst case: one CPU
     from .. import stdio_driver
     ok, out, binary = core.build_lsp_bin()
